@@ -108,6 +108,23 @@ Theorem C01_blob_manifest : forall d,
 Proof. exact blob_manifest_parses. Qed.
 Print Assumptions C01_blob_manifest.
 
+(* hash_git_data for every git object type and base algorithm: accepted iff the
+   type is in the regenerated table GIT_OBJECT_TYPES, and then the digest is
+   H base applied to "<type> <decimal length>\0" ++ data, an object that the
+   independent parser decodes back to (type, data); otherwise ValueError.  No
+   type of the table contains a space. *)
+Theorem C01_hash_git_data_any : forall (H : bytes -> bytes -> bytes) data ty base,
+  (mem_bytes ty GIT_OBJECT_TYPES = true ->
+     hash_git_data H data ty base = Ok (H base (git_object ty data))
+     /\ (~ In SP ty -> parse_git_object (git_object ty data) = Some (ty, data)))
+  /\ (mem_bytes ty GIT_OBJECT_TYPES = false -> hash_git_data H data ty base = Err ValueError).
+Proof. exact hash_git_data_any. Qed.
+Print Assumptions C01_hash_git_data_any.
+
+Theorem C01_git_types_space_free : forallb (fun ty => negb (memb SP ty)) GIT_OBJECT_TYPES = true.
+Proof. exact git_types_space_free. Qed.
+Print Assumptions C01_git_types_space_free.
+
 (* Subsets.  For EVERY list of names and declared length: either the
    constructor accepts them, and then from_file (any reader) yields for each
    requested name a the digest H (base a) (prefix a length ++ data) - an
